@@ -131,6 +131,19 @@ void h_run(void) {
   fiber_t* f[MAXFB + 16];
   if (nfib > MAXFB + 16) sim_violation("SIM-harness-table", "%d fibers", nfib);
   for (int i = 0; i < nfib; i++) f[i] = fiber_create(STK, fib, (void*)(intptr_t)i);
+  /* other semaphores come and go while fibers wait on this one: their queue nodes are taken from and returned to
+   * the runtime's shared node pool, which by then holds nodes this semaphore has retired */
+  const int lifecycles = wl_pct(30) ? wl_int(1, 4) : 0;
+  for (int r = 0; r < lifecycles; r++) {
+    for (int k = 0; k < 6; k++) fiber_yield();
+    fiber_semaphore_t* b = h_dirty_alloc(sizeof *b);
+    fiber_semaphore_init(b, 1);
+    if (fiber_semaphore_trywait(b) != FIBER_SUCCESS) sim_violation("C06-trywait-failed-with-units", "trywait on a fresh semaphore with 1 unit failed");
+    fiber_semaphore_post(b);
+    if (fiber_semaphore_getvalue(b) != 1) sim_violation("C06-value-at-rest", "second semaphore: value %d after trywait + post from 1", fiber_semaphore_getvalue(b));
+    fiber_semaphore_destroy(b);
+    free(b);
+  }
   for (int i = 0; i < nfib; i++) fiber_join(f[i], NULL);
   int v = fiber_semaphore_getvalue(&sem);
   if (v != sinit + posts_done - successes)
